@@ -13,7 +13,7 @@ def sig(e):
 
 
 def distinct(e):
-    if e["ev"] in ("Cong", "QOp", "SetMDS"):
+    if e["ev"] in ("Cong", "QOp", "SetMDS", "Pace"):
         return (e["ev"], e["scn"], e["seq"])
     return None
 
@@ -26,7 +26,7 @@ def run(ctx):
         ctx.tlc_mc("MC_PNQueue", "MC_PNQueue2_big.cfg")
         ctx.tlc_mc("MC_Bbr", "MC_Bbr_big2.cfg", timeout=1200)
     # quick: one model mutant per Sys module (non-vacuity); thorough: all eight
-    muts = [("MC_PNQueue", "MC_PNQueue_mutClearup.cfg"), ("MC_Bbr", "MC_Bbr_mutRecFloor.cfg")]
+    muts = [("MC_PNQueue", "MC_PNQueue_mutClearup.cfg"), ("MC_Bbr", "MC_Bbr_mutRecFloor.cfg"), ("MC_Bbr", "MC_Bbr_mutPacerMds.cfg")]
     if T:
         muts += [("MC_PNQueue", "MC_PNQueue_mutGrow.cfg"), ("MC_Bbr", "MC_Bbr_mutPrune.cfg"),
                  ("MC_PNQueue", "MC_PNQueue_mutPop.cfg"), ("MC_Bbr", "MC_Bbr_mutClamp.cfg"),
@@ -44,5 +44,6 @@ def run(ctx):
     ctx.validate("Prop_C12", sig=sig, distinct=distinct)
     ctx.assumptions += ["the stimulus is what quic-go's sent-packet handler produces: bytes in flight passed to OnPacketSent include the packet, acked/lost are in-flight packets in ascending order, packet threshold 3, datagram size only grows (checked by the monitor on every trace)",
                         "packet-number gaps are bounded by the runs of skipped numbers and ACK-only packets QUIC produces; the bookkeeping bound is in packet numbers, not in a count of ack-eliciting packets",
+                        "pacing-limited decisions (CanSend, HasPacingBudget(now), TimeUntilSend(), HasPacingBudget at the announced time) are logged for every refusal; a stall is a verdict (NoDeadlock) only on the loss-free fixed-capacity runs the statement names, DRIFT_PaceStall elsewhere",
                         "loss-free fixed-capacity runs: unbounded bottleneck queue, no random loss, receiver acks every 2nd packet; throughput judged over 12 s after a 5 s warm-up"]
     return ctx.finish(rule="congestion events, datagram-size raises and queue operations recorded from the real bbrSender / packetNumberIndexedQueue (TLC-generated schedules x 3 profiles, loss-free runs x 3 profiles, seeded bottleneck simulations)")
